@@ -30,9 +30,50 @@ class Impl:
         self.loc = crate.loc(item.get("sp"))
         self.macro = (item.get("expn") or {}).get("macro")
 
+    def self_adt(self):
+        """(path, [arg]) of the impl's self type; arg = ('t', type-dict) | ('c', const-string)"""
+        t = self.crate.types[self.item["self_ty"]]
+        return type_adt(self.crate, t)
+
+    def skipped_params(self):
+        """(S, K) when every type argument of the self type is Skipped<_, S, K> with the same S and K."""
+        path, args = self.self_adt()
+        sk = []
+        for kind, a in args:
+            if kind != "t":
+                continue
+            p2, a2 = type_adt(self.crate, a)
+            if p2 != "pest_typed::predefined_node::Skipped":
+                return None
+            targs = [x for x in a2]
+            if len(targs) != 3:
+                return None
+            s = self.crate.tys_of(targs[1][1]) if targs[1][0] == "t" else None
+            k = targs[2][1] if targs[2][0] == "c" else None
+            sk.append((s, k))
+        if not sk or any(x != sk[0] for x in sk):
+            return None
+        return sk[0]
+
     def key(self):
         """Stable, line-free name of the construct."""
         return "%s for %s" % (self.trait.rsplit("::", 1)[-1], self.self_ty)
+
+
+def type_adt(crate, t):
+    if t["k"] == "array":
+        return "array", [("t", crate.types[t["elem"]]), ("c", t["len"])]
+    if t["k"] == "tuple":
+        return "tuple", [("t", crate.types[x]) for x in t["elems"]]
+    if t["k"] != "adt":
+        return t["k"], []
+    args = []
+    for a in t.get("args", []):
+        if "t" in a:
+            args.append(("t", crate.types[a["t"]]))
+        elif "c" in a:
+            args.append(("c", a["c"]))
+    return t["path"], args
 
 
 class World:
